@@ -1565,6 +1565,10 @@ func (l *List) CreateInterpolation(st funcGen.Stack[Value]) (Value, error) {
 	var points []point
 	var v Value
 	for v, err = range l.iterable(st) {
+		if err != nil {
+			// an error item of the source list: v is nil and must not reach the accessor functions
+			break
+		}
 		var x float64
 		x, err = MustFloat(getXFunc.Eval(st, v))
 		if err != nil {
@@ -1591,6 +1595,9 @@ func (l *List) CreateInterpolation(st funcGen.Stack[Value]) (Value, error) {
 			fl, ok := st.Get(0).ToFloat()
 			if !ok {
 				return nil, errors.New("argument in interpolation needs to be a float")
+			}
+			if len(points) == 0 {
+				return nil, errors.New("interpolation without points")
 			}
 			return Float(interpolatePoints(points, fl)), nil
 		},
